@@ -57,8 +57,10 @@ CONSTANTS SizeOverflowChecked, \* header size near 2^32 is rejected (FALSE: size
           RolloverFlushes,     \* a segment is flushed before its successor is created (FALSE: closed segments can be torn)
           EmptyReported,       \* a zero size field at or below the commit offset with data behind it is an error (FALSE: end of log)
           TruncClearsTail,     \* Truncate zeroes the whole removed tail of the segment (FALSE: only the header of the first removed record)
-          RoRebuildStrict      \* a corrupt record met while the index of a CLOSED segment is rebuilt from its txn file fails the rebuild
+          RoRebuildStrict,     \* a corrupt record met while the index of a CLOSED segment is rebuilt from its txn file fails the rebuild
                                \* (FALSE: the scan stops there and the segment is served with the records in front of the damage)
+          RoEmptyReported      \* a zero size field with data behind it met by that rebuild (RecoverIndex without a commit offset) fails it
+                               \* too (FALSE: taken for the end of the segment, the records behind it become a hole)
 
 None == [rec |-> -1, field |-> "none", cls |-> "none", at |-> -1]
 
@@ -255,20 +257,22 @@ KfRoTail(img) == /\ Damaged(img) /\ D(img) > img.commit /\ Lay(img)[D(img) + 1].
 \* a record's checksum is seeded with the previous-crc field of its own header; nothing compares
 \* that field with the checksum of the record before it
 KfSplice(img) == img.dmg.field = "splice"
-\* the rebuild of a lost index of a closed segment takes a zeroed size field for the end of the segment (there is no
-\* commit offset to compare with): the segment is served with the records in front of it, the rest is a hole
-KfRoZero(img) == /\ img.codec = "v2"
-                 /\ img.dmg.field = "record" \/ (img.dmg.field = "size" /\ img.dmg.cls = "s0")
-                 /\ LET s == Lay(img)[D(img) + 1].seg
-                    IN /\ s < Live(img) /\ D(img) + 1 > FirstRec(img, s)
-                       \* the index is rebuilt.  With a history the index file of a closed segment is not reliable either:
-                       \* WriteIndex does not truncate the file, so a segment that was closed, reopened by TruncateLog and
-                       \* closed again with fewer records keeps a stale tail, fails its checksum and is rebuilt on every open
-                       /\ img.idx[s] # "ok" \/ NR(img) > 0
+\* a record at the very end of a CLOSED segment that is zeroed completely (nothing non-zero behind it) cannot be told
+\* from the end of the segment by the rebuild of a lost index (newReadOnlySegment does not know that the segment must
+\* reach the base offset of its successor): the segment is served with the records in front of it, the last one is a
+\* hole.  (A zeroed size field / record with data behind it is reported since the repair - rule RoEmptyReported.)
+KfRoWipedLast(img) ==
+    /\ img.codec = "v2" /\ img.dmg.field = "record"
+    /\ LET s == Lay(img)[D(img) + 1].seg
+       IN /\ s < Live(img) /\ D(img) + 1 > FirstRec(img, s) /\ ~DataFollows(img, D(img) + 1)
+          \* the index is rebuilt.  With a history the index file of a closed segment is not reliable either:
+          \* WriteIndex does not truncate the file, so a segment that was closed, reopened by TruncateLog and
+          \* closed again with fewer records keeps a stale tail, fails its checksum and is rebuilt on every open
+          /\ img.idx[s] # "ok" \/ NR(img) > 0
 Kf(img) == (IF KfWipedLast(img) THEN {"wipedLast"} ELSE {}) \cup
            (IF KfRoTail(img) THEN {"roTail"} ELSE {}) \cup
            (IF KfSplice(img) THEN {"splice"} ELSE {}) \cup
-           (IF KfRoZero(img) THEN {"roZero"} ELSE {})
+           (IF KfRoWipedLast(img) THEN {"roWipedLast"} ELSE {})
 
 (***************************************************************************)
 (* The property.                                                           *)
@@ -321,7 +325,7 @@ Symptom(img, out) ==
        /\ out.first = 0 /\ out.last = Len(out.ents) - 1
        /\ \/ out.pres = "none"
           \/ out.pres = "ok" /\ out.pents = out.ents \o [j \in 1..Len(img.post) |-> 100 + j - 1]
-    \/ /\ KfRoZero(img) /\ out.res = "hole" /\ out.ents = Ids(D(img))      \* the gap starts exactly at the zeroed record
+    \/ /\ KfRoWipedLast(img) /\ out.res = "hole" /\ out.ents = Ids(D(img)) \* the gap is exactly the zeroed last record
 
 \* verdict on one outcome: "ok", "kf:<id>" (a recorded finding shows its symptom) or "bad"
 Judge(img, out, guarded) ==
@@ -358,7 +362,9 @@ Scan(img, i, hi, useCommit) ==
     ELSE LET st == Stat(img, i) IN
          IF st = "valid" THEN Scan(img, i + 1, hi, useCommit)
          ELSE IF st = "empty"
-              THEN IF EmptyReported /\ useCommit /\ i - 1 <= img.commit /\ DataFollows(img, i)
+              THEN IF /\ DataFollows(img, i)                                         \* !isZeroed(buf[newFileOffset:])
+                      /\ IF useCommit THEN EmptyReported /\ i - 1 <= img.commit
+                                      ELSE RoEmptyReported                           \* nil commit offset: nothing may be discarded
                    THEN [res |-> "error", upto |-> i - 1]
                    ELSE [res |-> "ok", upto |-> i - 1]                               \* taken for the end of the log
          ELSE IF st = "ovf" /\ ~SizeOverflowChecked THEN [res |-> "panic", upto |-> i - 1]
